@@ -169,12 +169,17 @@ def e_discriminants():
             yield Item('enum', I('A'), tparam(), [], False,
                        [Attr('repr', repr_=('idents', ids)), dw(['PartialOrd', 'PartialEq', 'Ord', 'Eq'], gen_T())], vs)
     # data enum without repr, where-clause on the item, lifetimes and consts in the generics
-    vs = [Variant(I('X'), 'tuple', [Field(0, 'T', [])]), Variant(I('Y'), 'unit', []), Variant(I('Z'), 'named', [Field(I('a'), 'u8', [])])]
-    for params, preds in (([Param('ty', 'T', comma=False)], ['T: Super']),
-                          ([Param('lt', "'a"), Param('ty', 'T', 'Super'), Param('const', 'N', 'usize', comma=False)], ["T: 'a", 'Vec<T>: Clone']),
-                          ([Param('ty', 'T', '', 'u8')], [])):
-        for traits in (['PartialOrd', 'PartialEq'], ['Ord', 'PartialOrd', 'PartialEq', 'Eq']):
-            yield Item('enum', I('A'), params, preds, bool(preds), [dw(traits, gen_T())], vs)
+    PHU = '::core::marker::PhantomData<U>'
+    vs = [Variant(I('X'), 'tuple', [Field(0, 'T', [])]), Variant(I('Y'), 'unit', []), Variant(I('Z'), 'named', [Field(I('a'), PHU, [])])]
+    for params, preds in (([Param('ty', 'T'), Param('ty', 'U', comma=False)], ['T: Super']),
+                          ([Param('ty', 'T'), Param('ty', 'U', comma=False)], ['U: Super', "T: 'static"]),
+                          ([Param('lt', "'a"), Param('ty', 'T', 'Super'), Param('ty', 'U'), Param('const', 'N', 'usize', comma=False)], ["T: 'a", 'Vec<T>: Clone']),
+                          ([Param('ty', 'T'), Param('ty', 'U', '', 'Leaf', comma=False)], [])):
+        for traits in (['PartialOrd', 'PartialEq'], ['Ord', 'PartialOrd', 'PartialEq', 'Eq'], ['PartialOrd', 'PartialEq', 'Clone']):
+            for trailing in (False, True):
+                yield Item('enum', I('A'), params, preds, bool(preds) and trailing, [dw(traits, gen_T())], vs)
+            ids = [I('u8')]
+            yield Item('enum', I('A'), params, preds, False, [Attr('repr', repr_=('idents', ids)), dw(traits, gen_T())], vs)
 
 
 # ------------------------------------------------------------------ E4: default (C11)
